@@ -219,10 +219,11 @@ pub fn plan(tier: Tier) -> Plan {
     for k in [8u32, 16, 24] {
         p.units.push(unit("root-delta-exactly-at-2^8-2^16-2^24-(calibrated-family)", format!("delta 2^{}", k), move |st, rep| {
             for off in [-1i64, 0, 1] {
-                match super::c01::delta_boundary_kvs(((1i64 << k) + off) as usize) {
-                    Ok(kvs) => {
+                match super::c01::delta_boundary_kvs_x(((1i64 << k) + off) as usize) {
+                    Ok((kvs, exact)) => {
                         st.nontrivial += 1;
                         st.count("calibrated_delta_cases", 1);
+                        st.count("calibrated_delta_cases_exactly_on_target", exact as u64);
                         do_case(&kvs, Front::RawInsert, DEFAULT_GEOM, 0, st, rep);
                     }
                     Err(msg) => {
@@ -277,6 +278,6 @@ pub fn plan(tier: Tier) -> Plan {
             do_case(&kvs, Front::RawInsert, (3, 3), 0, st, rep);
         }));
     }
-    p.must_be_nonzero = vec!["far_cases".into(), "label_cases".into(), "fanout_cases".into(), "nodes_with_index".into(), "nodes_one_trans_next".into(), "nodes_one_trans".into()];
+    p.must_be_nonzero = vec!["calibrated_delta_cases_exactly_on_target".into(), "far_cases".into(), "label_cases".into(), "fanout_cases".into(), "nodes_with_index".into(), "nodes_one_trans_next".into(), "nodes_one_trans".into()];
     p
 }
